@@ -176,8 +176,19 @@ class Interp:
         if c in ('true', 'false'): return c == 'true'
         if c.endswith('KnownQualifierKey>::KEY'): return RStr(b'checksum')   # spike hack: only Checksum reaches here
         if c == '()': return []
+        if re.fullmatch(r'[A-Z]\w*', c): return Adt(c, 'struct', [])
         if re.fullmatch(r'Option::<.*>::None', c): return NONE()
         if c.startswith('ZeroSized'): return ('closure', c)
+        m = re.match(r'^\{(alloc\d+): ', c)
+        if m:
+            txt = open('/tmp/mirx/purl.mir').read() if not hasattr(self, '_mirtxt') else self._mirtxt
+            self._mirtxt = txt
+            sm = re.search(r'^%s \(static: (\w+),' % m.group(1), txt, re.M)
+            if sm:
+                if not hasattr(Interp, '_statics'): Interp._statics = {}
+                if sm.group(1) not in Interp._statics:
+                    Interp._statics[sm.group(1)] = [self.call_fn(self.fns[sm.group(1)], [])]
+                return Ref(Interp._statics[sm.group(1)], 0)
         if c == 'percent_encoding::CONTROLS': return Ref([frozenset(list(range(0x20)) + [0x7F])], 0)
         for cand in (c, c.split('::', 1)[-1]):
             if cand in self.fns and not self.fns[cand].params: return self.call_fn(self.fns[cand], [])
